@@ -12,10 +12,15 @@ impl Rng {
     fn below(&mut self, n: usize) -> usize { (self.next() % n as u64) as usize }
 }
 
-const ATOMS: [&str; 60] = [
+const ATOMS: [&str; 125] = [
     "fn", "f", "(", ")", "{", "}", "[", "]", "let", "x", "=", "1", ";", ":", "Int64", ",", "class", "struct", "enum", "trait", "impl",
     "if", "else", "while", "for", "in", "return", "match", "=>", "->", "::", ".", "+", "-", "*", "\"s\"", "\"a${x}b\"", "'c'", "1.5", "true",
     " ", "  ", "\n", "\r\n", "\r", "\t", "// c\n", "// c", "/* c */", "/* a\nb */", "/* unterminated", "\n\n", " \n \n", "pub", "mod", "use", "@", "é", "😀", "#",
+    // the rest of the keywords and operators
+    "self", "Self", "package", "super", "break", "continue", "ref", "mut", "extern", "const", "static", "mutating", "as", "is", "type", "where", "false", "_",
+    "<", ">", "<=", ">=", "==", "!=", "===", "!==", "!", "&&", "||", "&", "|", "^", "<<", ">>", ">>>", "/", "%", "+=", "-=", "*=", "/=", "%=", "|=", "&=", "^=", "<<=", ">>=", ">>>=", "..", "...", "..=", "|x|",
+    // literal shapes
+    "0x1F", "0b101", "1_000", "1i32", "2.5e-3", "1e", "0x", "'\\n'", "'", "\"unterminated", "\"a${", "}\"", "\"${1}${2}\"",
 ];
 
 fn gen_text(rng: &mut Rng, n: usize) -> String {
@@ -121,7 +126,7 @@ fn from_hex(h: &str) -> String {
 }
 
 fn main() {
-    std::panic::set_hook(Box::new(|_| {}));
+    if std::env::var("VX_BACKTRACE").is_err() { std::panic::set_hook(Box::new(|_| {})); }
     let args: Vec<String> = std::env::args().collect();
     if args.len() >= 3 && args[1] == "replay" {
         let t = from_hex(&args[2]);
